@@ -1,4 +1,4 @@
-import CohdlVerif.Model.C08
+import CohdlVerif.Lemmas.C08Lemmas
 
 /-! C08 - property theorems.
   `C08.safe_sound`: the definite-assignment certificate is sound for every process skeleton: if `safe c [] `
@@ -72,3 +72,18 @@ theorem C08.case_first_branch_only_rejected :
     accepts (.alt (.write 1 .nil) (.alt .nil .nil .nil) (.read 1 .nil)) = false ∧
     run (.alt (.write 1 .nil) (.alt .nil .nil .nil) (.read 1 .nil)) [false, false] [] = none := by
   decide
+
+/-- C08 for the compiler's own analysis (mirror of `detect_uninitialized_temporaries` as fixed by fcb69e1):
+    every process skeleton it accepts is path-safe - for every control-flow shape and every placement of
+    definitions and uses, on every path of every activation no temporary is read before it is written.
+    (Through `detect_safe`: whatever `detect` accepts, the independent certificate `safe` accepts too.) -/
+theorem C08.detect_sound (c : TCode) (h : accepts c = true) : PathSafe c := by
+  unfold accepts at h
+  cases hd : detect c ⟨[], []⟩ with
+  | none => simp [hd] at h
+  | some r =>
+    obtain ⟨D', hs, _⟩ := detect_safe c ⟨[], []⟩ r.1 r.2 [] (by simpa using hd) (by simp)
+    exact C08.safe_sound c D' hs
+
+/-- non-vacuity of `detect_sound`: an accepted body with a helper-style definition in both branches -/
+example : accepts (.alt (.write 1 .nil) (.write 1 .nil) (.read 1 .nil)) = true := by decide
